@@ -160,7 +160,10 @@ def run(case, bct, REC):
             return
         REC.tag(PROP, 'exec')
         S = ((A + A.T) > 0).astype(float)  # symmetric support, asymmetric weights
-        for X in (A, G.weigh(A, 'real', case['ws'], symmetric=False), G.weigh(S, 'real', case['ws'], symmetric=False)):
+        Wsym = G.weigh(S, 'real', case['ws'], symmetric=True)
+        near = [Wsym * (1 + eps * np.triu(np.ones(S.shape), 1)) for eps in (1e-6, 1e-12)]     # two triangles apart by a rounding-sized factor
+        near = [X for X in near if not np.array_equal(X, X.T)]
+        for X in [A, G.weigh(A, 'real', case['ws'], symmetric=False), G.weigh(S, 'real', case['ws'], symmetric=False)] + near:
             try:
                 bct.get_components(X)
                 REC.check(PROP, 'get_components', 'rejects_asymmetric', False, {'A': X, 'outcome': 'returned'})
